@@ -67,7 +67,9 @@ def spell(path, how, base, rng):
     if how == "symlink":
         links = pathlib.Path(base) / "_links"
         links.mkdir(exist_ok=True)
-        ln = links / ("alias_%s_%d" % (p.name, abs(hash(str(p))) % 1000))
+        import hashlib
+
+        ln = links / ("alias_%s_%s" % (p.name, hashlib.md5(str(p).encode()).hexdigest()[:12]))  # one alias per directory, never shared
         if not ln.exists():
             try:
                 ln.symlink_to(p, target_is_directory=True)
